@@ -612,8 +612,11 @@ impl Wal {
             }
 
             let mut segment = WalSegment::open(segment_path, sequence)?;
+            let segment_len = segment.offset();
+            let mut valid_len = 0u64;
 
             while let Ok((header, page_data)) = segment.read_frame() {
+                valid_len += (WAL_FRAME_HEADER_SIZE + PAGE_SIZE) as u64;
                 if header.file_id != file_id {
                     continue;
                 }
@@ -637,6 +640,11 @@ impl Wal {
 
                 page_mut.copy_from_slice(&page_data);
                 frames_applied += 1;
+            }
+
+            // a torn or corrupt frame ends the log (as in recover / recover_for_file)
+            if valid_len != segment_len {
+                break;
             }
         }
 
